@@ -435,6 +435,19 @@ pub fn run(input: &Value) -> Case {
     if stopped {
         tags.push("panic".into());
     }
+    // two different non-empty contents of the case start from the same derived image id (input only: the id a
+    // fresh handler gives each of them)
+    {
+        let mut firsts: Vec<(usize, u64)> = vec![];
+        for (i, (img, c)) in built.iter().enumerate() {
+            if c.0 > 0 && c.1 > 0 && !firsts.iter().any(|(k, _)| *k == cids[i]) {
+                firsts.push((cids[i], ids_of(img, None).0));
+            }
+        }
+        if firsts.iter().any(|(k, d)| firsts.iter().any(|(k2, d2)| k != k2 && d == d2)) {
+            tags.push("derived-id-collision".into());
+        }
+    }
     tags.push(format!("via={}", via));
     Case {
         coq: if via == "dummy" {
@@ -499,6 +512,55 @@ fn img_desc(rng: &mut Rng, big: u8) -> Value {
     d
 }
 
+/// Two different contents whose hash-derived image ids coincide (Surface::hash equal modulo the size
+/// of the id space): the id a fresh handler gives each of them is the same.  The pair found in review
+/// round 1 is tried first and re-verified against this build of the crate; when it no longer collides
+/// (or when `search` is set) a birthday search over random 2x2 images finds one (about 80 000 images).
+fn colliding_pair(rng: &mut Rng, search: bool) -> Option<(Value, Value)> {
+    let derived = |d: &Value| {
+        let (img, _) = build(d);
+        (ids_of(&img, None).0, img.hash())
+    };
+    let a = json!({"h":1,"w":1,"pix":[1,238,32,255]});
+    let b = json!({"h":1,"w":1,"pix":[20,45,240,128]});
+    let (da, db) = (derived(&a), derived(&b));
+    if !search && da.0 == db.0 && da.1 != db.1 {
+        return Some((a, b));
+    }
+    let mut seen: std::collections::HashMap<u64, Vec<u8>> = std::collections::HashMap::new();
+    for _ in 0..3_000_000u32 {
+        let pix: Vec<u8> = (0..16).map(|_| rng.byte()).collect();
+        let d = json!({"h":2,"w":2,"pix":pix.clone()});
+        let (id, _) = derived(&d);
+        if let Some(other) = seen.insert(id, pix.clone()) {
+            if other != pix {
+                return Some((json!({"h":2,"w":2,"pix":other}), d));
+            }
+        }
+    }
+    None
+}
+
+/// histories in which the id table of the handler and its set of transmitted images differ while a
+/// content with the same derived id arrives: erase before any draw, error response without placement
+fn collision_histories(a: &Value, b: &Value) -> Vec<Value> {
+    let imgs = json!([a, b]);
+    let mut v = vec![];
+    let mut add = |quiet: bool, ops: Value| v.push(json!({"quiet": quiet, "images": imgs.clone(), "ops": ops}));
+    add(false, json!([{"op":"erase","img":0,"pos":[2,3]},{"op":"draw","img":1,"pos":[0,0]},{"op":"draw","img":0,"pos":[2,3]},
+        {"op":"draw","img":1,"pos":[7,1]},{"op":"draw","img":0,"pos":[9,4]},{"op":"erase","img":0,"pos":[2,3]},{"op":"erase","img":1,"pos":[0,0]}]));
+    add(true, json!([{"op":"draw","img":0,"pos":[1,1]},{"op":"resp","img":0,"pl":Value::Null,"err":true,"lost":true},
+        {"op":"draw","img":1,"pos":[4,4]},{"op":"draw","img":0,"pos":[5,5]},{"op":"erase","img":1,"pos":[4,4]},{"op":"erase","img":0,"pos":Value::Null}]));
+    add(false, json!([{"op":"draw","img":0,"pos":[1,1]},{"op":"resp","img":0,"pl":Value::Null,"err":true,"lost":false,"wire":true},
+        {"op":"draw","img":1,"pos":[4,4]},{"op":"draw","img":0,"pos":[1,1]},{"op":"erase","img":0,"pos":[1,1]}]));
+    add(true, json!([{"op":"erase","img":0,"pos":Value::Null},{"op":"erase","img":1,"pos":Value::Null},{"op":"draw","img":1,"pos":[3,3]},
+        {"op":"draw","img":0,"pos":[3,3]},{"op":"erase","img":1,"pos":[3,3]}]));
+    add(false, json!([{"op":"draw","img":0,"pos":[6,6]},{"op":"draw","img":1,"pos":[6,7]},{"op":"resp","img":1,"pl":{"pos":[6,7]},"err":true,"lost":true},
+        {"op":"resp","img":0,"pl":Value::Null,"err":true,"lost":true},{"op":"resp","img":1,"pl":Value::Null,"err":true,"lost":true},
+        {"op":"draw","img":0,"pos":[6,6]},{"op":"draw","img":1,"pos":[6,7]},{"op":"erase","img":0,"pos":[6,6]}]));
+    v
+}
+
 const CORNERS: [(usize, usize); 8] =
     [(0, 0), (0, 65535), (65535, 0), (65535, 65535), (0, 1), (1, 0), (65534, 65535), (65535, 65534)];
 
@@ -514,10 +576,17 @@ fn gen_pos(rng: &mut Rng, pool: &[(usize, usize)]) -> (usize, usize) {
     }
 }
 
-fn gen_history(rng: &mut Rng, big: u8) -> Value {
-    let nimg = 1 + rng.below(3) as usize;
+fn gen_history(rng: &mut Rng, big: u8, pairs: &[(Value, Value)]) -> Value {
+    let mut nimg = 1 + rng.below(3) as usize;
     let mut images: Vec<Value> = vec![];
-    for i in 0..nimg {
+    // one history in seven mixes two contents with the same derived id with ordinary ones
+    let colliding = big == 0 && !pairs.is_empty() && rng.chance(1, 7);
+    if colliding {
+        let (a, b) = rng.pick(pairs).clone();
+        images = if rng.chance(1, 2) { vec![a, b] } else { vec![b, a] };
+        nimg = 2 + rng.below(2) as usize;
+    }
+    for i in images.len()..nimg {
         if i > 0 && rng.chance(1, 4) {
             // same content again, built separately (a second allocation must get the same id)
             let d = images[rng.below(i as u64) as usize].clone();
@@ -533,6 +602,24 @@ fn gen_history(rng: &mut Rng, big: u8) -> Value {
     if big > 0 {
         let p = gen_pos(rng, &pool);
         ops.push(json!({"op":"draw","img":0,"pos":[p.0,p.1]}));
+    }
+    if colliding {
+        // states in which a content has an id but is not (or no longer) counted as transmitted
+        let p = gen_pos(rng, &pool);
+        match rng.below(4) {
+            0 => ops.push(json!({"op":"erase","img":0,"pos":[p.0,p.1]})),
+            1 => ops.push(json!({"op":"erase","img":0,"pos":Value::Null})),
+            2 => {
+                ops.push(json!({"op":"draw","img":0,"pos":[p.0,p.1]}));
+                ops.push(json!({"op":"resp","img":0,"pl":Value::Null,"err":true,"lost":rng.chance(2, 3),"msg":rng.below(6),"wire":rng.chance(1, 3)}));
+            }
+            _ => {}
+        }
+        if rng.chance(2, 3) {
+            let q = gen_pos(rng, &pool);
+            ops.push(json!({"op":"draw","img":1,"pos":[q.0,q.1]}));
+            ops.push(json!({"op":"draw","img":0,"pos":[p.0,p.1]}));
+        }
     }
     for _ in 0..nops {
         let k = rng.below(nimg as u64);
@@ -646,11 +733,25 @@ pub fn generate(rng: &mut Rng, n: usize, tier: &str) -> Vec<Value> {
             "ops":[{"op":"draw","img":0,"pos":[5,7]},{"op":"resp","img":0,"pl":{"raw":raw},"err":true},
                    {"op":"draw","img":0,"pos":[5,7]},{"op":"erase","img":0,"pos":[5,7]}]}));
     }
+    // two contents with one derived image id (the known pair re-verified on this build, and a pair found
+    // by a birthday search seeded by the run): id table and transmitted set of the handler differ
+    let mut pairs: Vec<(Value, Value)> = vec![];
+    for search in [false, true] {
+        if let Some(p) = colliding_pair(rng, search) {
+            if !pairs.contains(&p) {
+                pairs.push(p);
+            }
+        }
+    }
+    for (a, b) in &pairs {
+        v.extend(collision_histories(a, b));
+        v.extend(collision_histories(b, a));
+    }
     // large images (several chunks) are spread over the run so that the case shards stay balanced
     let every = if tier == "thorough" { 12 } else { 25 };
     let mut k = 0;
     while v.len() + bigs.len() < n {
-        v.push(gen_history(rng, if k % every == 3 { if tier == "thorough" { 2 } else { 1 } } else { 0 }));
+        v.push(gen_history(rng, if k % every == 3 { if tier == "thorough" { 2 } else { 1 } } else { 0 }, &pairs));
         k += 1;
     }
     // spread the large fixed cases
